@@ -35,7 +35,7 @@ MIN_OBLIGATIONS = 8
 MIN_PER_RULE = {'C10.1': 2, 'C10.2': 2, 'C10.3': 3}
 
 
-def check(ctx):
+def run(ctx, r1='C10.1', r2='C10.2', r3='C10.3'):
     master, routines = M.publication_routines(ctx)
     ctx.require(len(routines) >= 2, 'publication routines of the master '
                                     '(found %s)' % [f.qualname
@@ -51,7 +51,7 @@ def check(ctx):
             path = None
             if hit:
                 path = K.find_path(wnode, hit, follow_exc=False)
-            ctx.ob('C10.1', func, wnode, not hit,
+            ctx.ob(r1, func, wnode, not hit,
                    'no placement record is deleted after a record was '
                    'written in the same publication (removals first)'
                    if not hit else
@@ -71,13 +71,13 @@ def check(ctx):
                 want = {N.Atom(('truth', bname, True)),
                         N.cmp_atom(ast.Name(id=bname), '!=',
                                    ast.Name(id=aname))}
-                ctx.ob('C10.2', func, dnode, mine == want,
+                ctx.ob(r2, func, dnode, mine == want,
                        'the removal pass is guarded by exactly `before and '
                        'before != after`: every relocation has its delete '
                        'in pass 1 (facts: %s)' % sorted(
                            N.show(f) for f in mine))
             else:
-                ctx.ob('C10.2', func, dnode, not mine,
+                ctx.ob(r2, func, dnode, not mine,
                        'the start-up removal pass has no per-record '
                        'condition besides its domain (facts: %s)' %
                        sorted(N.show(f) for f in mine))
@@ -88,7 +88,7 @@ def check(ctx):
     graph, ops = M.record_ops(ctx, func)
     dels = [(n, r) for n, op, r, _c in ops if op == 'delete']
     if not dels:
-        ctx.fail('C10.3', func, None,
+        ctx.fail(r3, func, None,
                  'the records of an instance found under several servers '
                  'are never deleted at restart',
                  construct='record delete in restore_placements')
@@ -105,7 +105,7 @@ def check(ctx):
         ctx.require(outer is not None, 'loop over the integrity map')
         entry_vars = sorted(N.for_targets(outer))
         dom = N.txt(inner.ast.iter)
-        ctx.ob('C10.3', func, inner, dom in entry_vars,
+        ctx.ob(r3, func, inner, dom in entry_vars,
                'the repair ranges over every server of the entry (%s)' %
                dom, construct='repair loop domain')
         # every iteration removes from the model and deletes the record
@@ -121,7 +121,7 @@ def check(ctx):
             path = K.find_path(inner, [inner], cut_node=pred,
                                cut_edge=lambda e: e.src is inner and
                                e.kind == 'done', follow_exc=False)
-            ctx.ob('C10.3', func, inner, path is None,
+            ctx.ob(r3, func, inner, path is None,
                    'for each server of a duplicated instance the repair '
                    '%s (no filter inside the loop)' % what,
                    path=K.describe(path) if path else None,
@@ -143,7 +143,7 @@ def check(ctx):
         others = [f for f in N.raw_only(facts[inner])
                   if f not in lenatom and
                   f.mentions & set(entry_vars)]
-        ctx.ob('C10.3', func, inner, ok and not others,
+        ctx.ob(r3, func, inner, ok and not others,
                'the repair applies exactly to entries with more than one '
                'server (facts: %s)' % sorted(N.show(f)
                                              for f in facts[inner]),
@@ -206,18 +206,30 @@ def check(ctx):
                             for d in graph.nodes if d.kind == 'for' and
                             d is not sloop and d is not inner):
                         ok = True
-    ctx.ob('C10.3', func, None, ok,
+    ctx.ob(r3, func, None, ok,
            'the integrity map is built from every server and every '
            'restored instance', construct='integrity map construction')
-    _feeder(ctx, loader, nz)
+    _feeder(ctx, loader, nz, r3)
     # shared with C09.1: the start-up reconciliation of a new master covers
     # every server that has stored records and removes exactly the records
     # the model does not hold
     from . import c09
-    c09._startup(ctx, master, rule='C10.2')
+    c09._startup(ctx, master, rule=r2)
 
 
-def _feeder(ctx, loader, nz):
+
+def check(ctx):
+    run(ctx)
+    # shared with C09.4 / C11.4: what the new master needs to complete its
+    # start-up on the stored state - a replaced server gets its recorded
+    # placement back, and a recorded identity (0 included) is taken back
+    from . import c09, c11
+    with ctx.shared({'C09': 'C10.3', 'C11': 'C10.3'}):
+        c09._reload(ctx)
+        c11.forced_identity(ctx)
+
+
+def _feeder(ctx, loader, nz, rule='C10.3'):
     """The per-server helper reports every instance it put back on the
     server - verbatim or with a re-evaluated lease - so the duplicate
     detection of restore_placements sees all holders."""
@@ -229,7 +241,7 @@ def _feeder(ctx, loader, nz):
             len(n.ast.value.elts) == 2]
     ctx.require(rets, 'return (placed, restored) of restore_placement')
     names = set(N.txt(r.ast.value.elts[1]) for r in rets)
-    ctx.ob('C10.3', func, rets[0], len(names) == 1,
+    ctx.ob(rule, func, rets[0], len(names) == 1,
            'one list of restored instances is returned on every exit: %s' %
            sorted(names), construct='restored list')
     lst = sorted(names)[0]
@@ -258,7 +270,7 @@ def _feeder(ctx, loader, nz):
             graph, node, [loop, graph.exit], cut_node=appended,
             cut_edge=lambda e: K.edge_establishes(ctx, func, nz, e, failed),
             follow_exc=False)
-        ctx.ob('C10.3', func, node, path is None,
+        ctx.ob(rule, func, node, path is None,
                'an instance put back on the server is reported in %s unless '
                'the placement failed' % lst,
                path=K.describe(path) if path else None,
